@@ -46,87 +46,28 @@ type verdict struct {
 }
 
 // quirks selects an attribution interpreter (the zero value is the reference one).
-type quirks struct{ keep, ownDel, skipSuspect bool }
+type quirks struct{ keep bool }
 
 const (
-	sigKeep   = "sqltx/rollback-to-savepoint-keeps-writes"
-	sigOwnDel = "sqltx/own-delete-invisible-to-insert"
-	sigSnap   = "sqltx/snapshot-not-fixed-across-indexes"
-	sigOwnIdx = "sqltx/own-writes-invisible-through-index"
+	sigKeep = "sqltx/rollback-to-savepoint-keeps-writes"
+	sigSnap = "sqltx/snapshot-not-fixed-across-indexes"
 )
 
-// suspect: a query resolved through a secondary index of a table that the same transaction
-// wrote earlier (attribution pass d: such scans do not show all of the transaction's own writes).
-func (o *txObs) suspect(i int) bool {
-	s := o.Prog.Stmts[i]
-	if !s.IsQuery() || i >= len(o.Stmts) || !o.Stmts[i].Secondary {
-		return false
-	}
-	for j := 0; j < i; j++ {
-		if w := o.Prog.Stmts[j]; w.IsDML() && w.Table == s.Table {
-			return true
-		}
-	}
-	return false
-}
-
-func (o *txObs) hasSuspect() bool {
-	for i := range o.Stmts {
-		if o.suspect(i) {
-			return true
-		}
-	}
-	return false
-}
-
 func (q quirks) sigs() []string {
-	var out []string
-	if q.skipSuspect {
-		out = append(out, sigOwnIdx)
-	}
 	if q.keep {
-		out = append(out, sigKeep)
+		return []string{sigKeep}
 	}
-	if q.ownDel {
-		out = append(out, sigOwnDel)
-	}
-	return out
+	return nil
 }
 
-func (q quirks) begin(snapshot *m.DB) *m.Tx {
-	tx := m.Begin(snapshot, q.keep)
-	tx.OwnDeleteBlocksInsert = q.ownDel
-	return tx
-}
+func (q quirks) begin(snapshot *m.DB) *m.Tx { return m.Begin(snapshot, q.keep) }
 
 // candidates lists the attribution interpreters that can differ from the reference one for this program.
 func candidates(o *txObs) []quirks {
-	p := o.Prog
-	del := false
-	ownDel := false
-	for _, s := range p.Stmts {
-		del = del || s.Kind == m.Delete
-		ownDel = ownDel || (del && s.Kind == m.Insert)
+	if o.Prog.RBAfterDML {
+		return []quirks{{keep: true}}
 	}
-	out := []quirks{}
-	if p.RBAfterDML {
-		out = append(out, quirks{keep: true})
-	}
-	if ownDel {
-		out = append(out, quirks{ownDel: true})
-	}
-	if p.RBAfterDML && ownDel {
-		out = append(out, quirks{keep: true, ownDel: true})
-	}
-	if o.hasSuspect() {
-		n := len(out)
-		out = append(out, quirks{skipSuspect: true})
-		for _, q := range out[:n] {
-			q.skipSuspect = true
-			out = append(out, q)
-		}
-	}
-	return out
+	return nil
 }
 
 // explain interprets o's program on snapshot and compares every observation not skipped.
@@ -162,7 +103,7 @@ func explain(o *txObs, snapshot *m.DB, q quirks, skip func(i int) bool) verdict 
 		}
 		s := p.Stmts[i]
 		res = tx.Exec(s)
-		if ((skip != nil && skip(i)) || (q.skipSuspect && o.suspect(i))) && res.Err == o.Stmts[i].Err {
+		if skip != nil && skip(i) && res.Err == o.Stmts[i].Err {
 			continue
 		}
 		if a := cmpStmt(res, &o.Stmts[i], s.IsQuery()); a != "" {
@@ -378,10 +319,25 @@ func (k *checker) perUnit(o *txObs, lo uint64, q quirks) bool {
 			}
 		}
 	}
-	if len(names) < 2 {
+	if len(names) == 0 {
 		return false
 	}
 	sort.Strings(names)
+	// the catalog of a transaction is loaded (or taken from the engine's cache) at BEGIN, the
+	// rows of a table at its first touch: a unit may pair the rows of one state with the
+	// catalog (constraints, added columns) of another state of the window
+	compose := func(table string, id, cat uint64) *m.DB {
+		if id == cat {
+			return k.states[id]
+		}
+		db := m.NewDB()
+		for n, t := range k.states[id].Tables {
+			db.Tables[n] = t
+		}
+		rt, ct := k.states[id].Tables[table], k.states[cat].Tables[table]
+		db.Tables[table] = &m.Table{Schema: rt.Schema, Rows: rt.Rows, MaxPK: rt.MaxPK, Checks: ct.Checks, Extra: ct.Extra, Idx: ct.Idx}
+		return db
+	}
 	composite := m.NewDB()
 	for n, t := range k.states[lo].Tables {
 		composite.Tables[n] = t
@@ -400,8 +356,10 @@ func (k *checker) perUnit(o *txObs, lo uint64, q quirks) bool {
 		}
 		table := strings.SplitN(u, "/", 2)[0]
 		found := false
-		for id := lo; id <= hi && !found; id++ {
-			tx := q.begin(k.states[id])
+		for pair := uint64(0); pair < (hi-lo+1)*(hi-lo+1) && !found; pair++ {
+			id, cat := lo+pair/(hi-lo+1), lo+pair%(hi-lo+1)
+			snap := compose(table, id, cat)
+			tx := q.begin(snap)
 			ok := true
 			prevUpd := 0
 			for i := range o.Stmts {
@@ -436,7 +394,7 @@ func (k *checker) perUnit(o *txObs, lo uint64, q quirks) bool {
 			if ok {
 				found = true
 				if !strings.Contains(u, "/") {
-					composite.Tables[table] = k.states[id].Tables[table]
+					composite.Tables[table] = snap.Tables[table]
 				}
 			}
 		}
@@ -480,27 +438,6 @@ func checkCase(c *fw.Ctx, d *db, tag string, nsess int, base uint64, init *m.DB,
 		}
 		if o.Committed && o.HeaderID > 0 {
 			committed = append(committed, o)
-		}
-		// attribution pass (c): a statement that re-indexes a row written earlier by the same
-		// transaction fails with the store's key-transiency error and aborts the transaction
-		if n := len(o.Stmts); (n > 0 && o.Stmts[n-1].Err == errTransiency) || (o.Prog.Script && o.EndErr == errTransiency) {
-			c.Eval(1)
-			indexedDML := 0
-			for i, s := range o.Prog.Stmts {
-				if (o.Prog.Script || i < n) && s.IsDML() && s.Table != "" && len(d.sch[s.Table].Index) > 0 {
-					indexedDML++
-				}
-			}
-			if indexedDML >= 2 {
-				k.viol("sqltx/own-row-reindex/transiency-error", "a statement that changes an indexed column of a row written earlier by the same transaction fails with ErrCannotUpdateKeyTransiency instead of seeing the transaction's own change", o)
-			} else {
-				k.viol("sqltx/unexpected-error/key-transiency", "ErrCannotUpdateKeyTransiency without two statements on an indexed table", o)
-			}
-			if o.Prog.Script {
-				o.EndErr = errConflict // nothing else was observed
-			} else {
-				o.Stmts = o.Stmts[:n-1] // the statements before it are judged as usual
-			}
 		}
 		if o.EndErr == errOther || (len(o.Stmts) > 0 && o.Stmts[len(o.Stmts)-1].Err == errOther) {
 			txt := o.EndText
@@ -552,6 +489,17 @@ func checkCase(c *fw.Ctx, d *db, tag string, nsess int, base uint64, init *m.DB,
 		want := t.Sorted()
 		if !m.RowsEqual(want, rows) {
 			k.viol("sqltx/final-contents", fmt.Sprintf("table %s after all sessions finished: engine %v, model of the committed transactions %v", name, rows, want), nil)
+		}
+	}
+	// a write that a CHECK constraint forbids must fail exactly when no COMMITTED transaction dropped the constraint
+	if ct := final.Tables["c"]; ct != nil {
+		probe := &m.Stmt{Kind: m.Insert, Table: "c", Cols: colNames(ct.Schema), Rows: [][]m.Val{{int64(9999), int64(500), "probe"}}}
+		want := m.Begin(final, false).Exec(probe).Err
+		var err error
+		d.op(func(ctx context.Context) { _, _, err = d.eng.Exec(ctx, nil, probe.SQL(ct.Schema), nil) })
+		c.Eval(1)
+		if got := classify(err); got != want {
+			k.viol("sqltx/final-constraint", fmt.Sprintf("after all sessions finished %q gave %q (%v); the committed transactions imply %q (constraints in force: %v)", probe.SQL(ct.Schema), got, err, want, ct.Checks), nil)
 		}
 	}
 	for _, o := range obs {
